@@ -40,6 +40,8 @@ type Proc struct {
 	Arg     string            `json:"arg"`    // kind specific (path, pattern, lines per split, ...)
 	OutDir  string            `json:"outdir"` // directory prefix of outputs (default "o/")
 	Tags    map[string]string `json:"tags"`   // maptotags: tags to add (value may contain %id)
+	Paths    []string          `json:"paths"`    // src: explicit file paths (instead of items)
+	OutPaths map[string]string `json:"outpaths"` // cmd: explicit output path patterns by port (instead of the naming scheme)
 }
 
 type Edge struct {
@@ -161,6 +163,7 @@ func main() {
 			for _, it := range p.Items {
 				paths = append(paths, "in/"+it+".txt")
 			}
+			paths = append(paths, p.Paths...)
 			c := components.NewFileSource(wf, p.Name, paths...)
 			procs[p.Name], owners[p.Name] = c, c
 		case "psrc":
@@ -201,7 +204,11 @@ func main() {
 			}
 			proc := wf.NewProc(p.Name, pat)
 			for _, o := range p.Outs {
-				proc.SetOut(o, outdir+p.Name+"."+o+"_"+sig+".txt")
+				if pat, ok := p.OutPaths[o]; ok {
+					proc.SetOut(o, pat)
+				} else {
+					proc.SetOut(o, outdir+p.Name+"."+o+"_"+sig+".txt")
+				}
 			}
 			if p.Cores > 0 {
 				proc.CoresPerTask = p.Cores
